@@ -204,6 +204,12 @@ func sealMain(args []string) {
 			}
 			each(fld+".corrupt", "truncate", func(m *accountant.Vertex) { set(m, get[:len(get)-1]) })
 			each(fld+".corrupt", "extend", func(m *accountant.Vertex) { set(m, get+"1") })
+			// base58 '1' is a zero byte: an address padded on the left must not resolve to the same key
+			each(fld+".corrupt", "extend-left", func(m *accountant.Vertex) { set(m, "1"+get) })
+			each(fld+".corrupt", "extend-left", func(m *accountant.Vertex) { set(m, "11"+get) })
+			each(fld+".corrupt", "extend-left", func(m *accountant.Vertex) { set(m, "2"+get) })
+			each(fld+".corrupt", "insert", func(m *accountant.Vertex) { set(m, get[:len(get)/2]+"1"+get[len(get)/2:]) })
+			each(fld+".corrupt", "truncate-left", func(m *accountant.Vertex) { set(m, get[1:]) })
 			each(fld+".replace", "other", func(m *accountant.Vertex) { set(m, w.m.Address()) })
 		}
 		// signatures by another wallet over the same digest
